@@ -12,7 +12,13 @@ REASONS = {
 }
 
 
-def owner(why):
+SHARED = {"every promise has run but BufferedProduceRecords is not zero": ("C01", "C03")}   # a clause two properties state
+
+
+def owner(why, prop=None):
+    for pat, props in SHARED.items():
+        if pat in why:
+            return prop if prop in props else props[0]
     for p, pats in REASONS.items():
         if any(x in why for x in pats):
             return p
@@ -46,7 +52,7 @@ def run(ctx, prop, n=None):
     accepted, rej = tracev.validate(ctx, "ProdTrace", "ProdTrace.cfg", "prod_trace.ndjson", rows, "prodtrace")
     mine = 0
     for s, line, why, ev in rej:
-        p = owner(why)
+        p = owner(why, prop)
         if p != prop and not (prop == "C01" and p not in ("C02", "C03", "C14")):
             continue
         mine += 1
